@@ -87,6 +87,9 @@ func (v *VM) run(codes []instruction, slots int) (rets []Value, err error) {
 		stack:   make([]Value, slots),
 		frame:   frame{Codes: codes},
 	}
+	if nested := v.depth + len(v.backtrace); nested > 0 { // Eval or Load called by a native of a running script
+		vm.depth = nested + nativeCallDepth
+	}
 	defer func() {
 		if r := recover(); r != nil {
 			err = vm.btErr(r)
